@@ -108,7 +108,8 @@ pub fn rs(sink: &mut Sink, seed: u64, thorough: bool) {
     // whole blocks of every (degree, block length) pair in use
     for &(deg, len) in &lens {
         let g = gens[&deg].clone();
-        let styles = if thorough { 8 } else { 3 };
+        // many random contents per shape: defects of the division that depend on intermediate values are rare (1 in 10^3 blocks)
+        let styles = if thorough { 320 } else { 64 };
         for st in 0..styles {
             let mut data: Vec<u8> = (0..len).map(|_| r.gen()).collect();
             match (st + len + deg) % 8 {
